@@ -204,6 +204,7 @@ def check(prog, ctx, only_c04=False):
                            'classified as %s; diagnostic exit shape ok' % cls, 'classified as %s but %s' % (cls, '; '.join(probs)),
                            line=st.line)
     ctx.notes.append('exit sites outside table functions: %d' % nsites)
+    ctx.sub('short_containers', short_containers, prog, ctx, wrappers)
     elementwise(prog, ctx, E, wrappers)
     delegation(prog, ctx, E, wrappers)
     domain_dependency(prog, ctx, E)
@@ -250,6 +251,120 @@ def find_loop(f):
     if f[0] == 'not':
         return find_loop(f[1])
     return None
+
+
+def short_containers(prog, ctx, wrappers):
+    """C10.f: an element read at a literal position (p[k], p.front(), p.back()) of a caller-supplied std::vector is reachable only
+    when the container has more than k elements.  The condition under which the read happens - the statement's reach formula
+    and the operands of &&, ||, ?: around it - is evaluated with the container's length set to 0..k (named locals with a single
+    definition are seen through); a read that happens for a too-short container is out of bounds.  Sites whose condition does
+    not evaluate (it depends on something other than that length) are counted, not judged."""
+    R = 'C10.f'
+    ctx.rule(R, 'tables of length 0: an element read at a literal position of a caller-supplied std::vector (p[k], front, back) happens only when the '
+             'container has more than k elements - decided from the reach condition of the read (statement level and short-circuit operands), '
+             'evaluated for every shorter length', 3)
+
+    def short_access(pnames):
+        def pred(n):
+            if n.get('k') == 'Index':
+                ix, b = strip_casts(n['idx']), strip(n['base'])
+                return ix.get('k') == 'Lit' and ix.get('lk') == 'int' and b.get('k') == 'Ref' and b.get('rk') == 'param' and b.get('name') in pnames
+            if n.get('k') == 'Call' and n.get('kind') == 'method' and (n.get('callee') or {}).get('name') in ('front', 'back') \
+                    and (n.get('callee') or {}).get('cls', '').startswith('std::vector'):
+                o = strip(n['obj'])
+                return o.get('k') == 'Ref' and o.get('rk') == 'param' and o.get('name') in pnames
+            return False
+        return pred
+
+    def operand_guards(root, target):
+        """[(expression, polarity)] that must hold for `target` to be evaluated inside `root` (short-circuit and ?: operands)."""
+        def rec(e, acc):
+            if e is target:
+                return acc
+            e0 = e
+            if not isinstance(e0, dict):
+                return None
+            if e0.get('k') == 'Bin' and e0.get('op') in ('&&', '||'):
+                r = rec(e0['lhs'], acc)
+                if r is not None:
+                    return r
+                return rec(e0['rhs'], acc + [(e0['lhs'], e0['op'] == '&&')])
+            if e0.get('k') == 'Cond':
+                r = rec(e0['c'], acc)
+                if r is not None:
+                    return r
+                r = rec(e0['a'], acc + [(e0['c'], True)])
+                if r is not None:
+                    return r
+                return rec(e0['b'], acc + [(e0['c'], False)])
+            from ..ir import expr_children
+            for c_ in expr_children(e0):
+                r = rec(c_, acc)
+                if r is not None:
+                    return r
+            return None
+        return rec(root, [])
+
+    fns = prog.repo_functions() + [f for f in prog.all_functions() if f.is_inst and 'List_Manipulations' in f.file]
+    skipped = 0
+    seen_inst = set()
+    for fn in sorted(set(fns), key=lambda f: (f.file, f.line)):
+        if fn.body is None or fn.is_lambda:
+            continue
+        pn = [p['name'] for p in fn.params if p['ty'].startswith('std::vector')]
+        if not pn:
+            continue
+        pred = short_access(pn)
+        sites = []          # (node, reach or None, statement root expr or None)
+        g = G.GuardScan(prog, fn, wrappers)
+        g.use_pred = pred
+        g.run()
+        for node, reach, loops in g.uses:
+            sites.append((node, reach, loops))
+        for i in fn.inits:
+            if i.get('init') is not None:
+                for n in walk_expr(i['init']):
+                    if pred(n):
+                        sites.append((n, G.TRUE, []))
+        for node, reach, loops in sites:
+            b = strip(node['base'])['name'] if node.get('k') == 'Index' else strip(node['obj'])['name']
+            k = int(strip_casts(node['idx'])['v']) if node.get('k') == 'Index' else 0
+            # the statement expression that contains the node (for the short-circuit operands)
+            root = None
+            for s_ in walk_stmts(fn.body):
+                for e_ in stmt_exprs(s_):
+                    if any(x is node for x in walk_expr(e_)):
+                        root = e_
+            for i in fn.inits:
+                if i.get('init') is not None and any(x is node for x in walk_expr(i['init'])):
+                    root = i['init']
+            ops = operand_guards(root, node) if root is not None else []
+            inst = '%s:%s[%s]' % (fn.q.replace(L, '') + ('/%d' % len(fn.params)), b, k if node.get('k') == 'Index' else (node['callee']['name']))
+            if inst in seen_inst:
+                inst += '@%s' % node.get('l')
+            verdict = []
+            for n_ in range(0, k + 1):
+                row = {'len(%s)' % b: n_}
+                try:
+                    ce = G.CEval(prog, row, None, {})
+                    v = ce.formula(reach)
+                    for ex_, pol in (ops or []):
+                        if not v:
+                            break
+                        v = v and (bool(ce.ev(g.subst(ex_))) == pol)
+                except (Undecided, KeyError, TypeError):
+                    v = None
+                verdict.append(v)
+            if any(v is None for v in verdict) and not any(v is True for v in verdict):
+                skipped += 1
+                continue
+            seen_inst.add(inst)
+            bad = [n_ for n_, v in enumerate(verdict) if v is True]
+            ctx.decide(R, inst, fn, not bad, 'read of %s is reached only when `%s` has more than %d element(s)' % (show(node)[:40], b, k),
+                       '%s is read although `%s` may have only %s element(s): nothing on the way to the read tests its length (out-of-bounds read for a table of length %s)'
+                       % (show(node)[:40], b, bad[0] if bad else '', bad[0] if bad else ''),
+                       witness={'container_length': bad[0]} if bad else None, line=node.get('l'))
+    ctx.notes.append('C10.f: %d literal-position reads of parameters depend on conditions other than the length and were not judged' % skipped)
 
 
 def order_guard_by_algorithm(prog, ctx, E, ctor, wrappers):
